@@ -102,6 +102,20 @@ func toTreeD(v reflect.Value, depth int) *tree {
 		}
 		e := v.Elem()
 		return &tree{K: "iface", T: e.Type().String(), Elem: toTreeD(e, depth+1)}
+	case reflect.Array, reflect.Slice:
+		// element i is kid "i"; an array is zero when all of its elements are, a slice when it is nil
+		t := &tree{K: "arr", T: v.Type().String(), Kids: map[string]*tree{}}
+		if v.Kind() == reflect.Slice {
+			t.K = "slice"
+			if v.IsNil() {
+				t.Nil = true
+				return t
+			}
+		}
+		for i := 0; i < v.Len(); i++ {
+			t.Kids[fmt.Sprintf("%03d", i)] = toTreeD(v.Index(i), depth+1)
+		}
+		return t
 	default:
 		return &tree{K: "other", T: v.Type().String(), V: fmt.Sprintf("%v", v.Interface())}
 	}
@@ -166,6 +180,24 @@ func (t *tree) write(b *strings.Builder) {
 			kid.write(b)
 		}
 		b.WriteByte('}')
+	case "arr", "slice":
+		if t.Nil {
+			b.WriteString("nilslice")
+			return
+		}
+		b.WriteString(t.T + "[")
+		ks := make([]string, 0, len(t.Kids))
+		for k := range t.Kids {
+			ks = append(ks, k)
+		}
+		sort.Strings(ks)
+		for i, k := range ks {
+			if i > 0 {
+				b.WriteByte(' ')
+			}
+			t.Kids[k].write(b)
+		}
+		b.WriteByte(']')
 	case "ptr":
 		if t.Nil {
 			b.WriteString("nilptr")
@@ -201,7 +233,14 @@ func (t *tree) zero() bool {
 			}
 		}
 		return true
-	case "ptr", "map", "iface":
+	case "arr":
+		for _, k := range t.Kids {
+			if !k.zero() {
+				return false
+			}
+		}
+		return true
+	case "ptr", "map", "iface", "slice":
 		return t.Nil
 	}
 	return false
@@ -221,7 +260,7 @@ func (t *tree) empty() bool {
 		return true
 	case "ptr":
 		return t.Nil || t.Elem.empty()
-	case "map":
+	case "map", "slice":
 		return t.Nil || len(t.Kids) == 0
 	case "iface":
 		return t.Nil || t.Elem.empty()
